@@ -61,7 +61,7 @@ PROPS = {
         "rule": "rd: 1-5 frames (lengths 0,1,2,253-256,507-509, random; zero-free/zero-rich; zero right after a 254-run) written through the real "
                 "CobsWrapper.Write, idle delimiters, cut into device reads (byte-wise, all at once, near frame boundaries, random density, empty reads), "
                 "~25% with one damage event (flip/drop/insert/long burst); enc: Write output; dec: decoder on valid/truncated/corrupted/random bytes. "
-                "distinct = distinct case line; all cases non-trivial (each runs the reader or codec)",
+                "distinct = distinct case line; all cases non-trivial (each runs the reader or codec); long frames aim at zero-free runs of exactly 252, 253 and 254 bytes",
         "trusted": ["bytes.Buffer / bytes.IndexByte / copy semantics (parameters, exercised by the run)"],
         "modelled": ["client/cobs-wrapper.go: cobsEncode, cobsDecodeInplace (in-place aliasing abstracted to a pure function), CobsWrapper.Read/Write modelled by hand in Siot/Model/Cobs.lean",
                      "device reads are whole chunks of at most len(b) bytes; blocking/timing of the serial port is not modelled"],
@@ -75,7 +75,7 @@ PROPS = {
         "rule": "crc: model LFSR vs crc16.ChecksumCCITT on 1-2 byte and random inputs; rt: SerialEncode->SerialDecode->PbDecodeSerialPoints on "
                 "documented and hostile subjects (16/17 bytes, embedded NUL, log) x 0-3 generated points (values incl. float32 limits, times incl. int64 limits, data, origin); "
                 "dec: decoder on truncated/random/log-shaped bytes; det: real packets on documented subjects XOR 1-bit, 2-bit, <=16-bit bursts (biased to subject field "
-                "and trailer), crafted subject->log rewrites, and heavier damage; distinct = distinct case line; every case runs the real codec",
+                "and trailer), crafted subject->log rewrites, and heavier damage; distinct = distinct case line; every case runs the real codec; subjects include logs, logLevel, log.a, login/abc, lo, Log, blog next to log",
         "trusted": ["kjx98/crc16 table-driven update (modelled bit-serially; equality exercised by the crc cases)",
                     "protobuf-go Marshal/Unmarshal of SerialPoints (payload is opaque bytes in the model; see C12)"],
         "modelled": ["client/serial-wrapper.go SerialEncode/SerialDecode modelled by hand (Siot/Model/Serial.lean); payload codec not modelled here",
@@ -90,7 +90,7 @@ PROPS = {
         "rule": "register maps (empty, dense from 0 up to 130, gaps, validators even/never/less-than, top and bottom of the address space, "
                 "coil registers incl. 4090-4095, sparse with duplicate specs) x requests (reads/writes with quantities 0,1,limit-1,limit,limit+1,2040,2041,32767,32768,65535; "
                 "addresses 0..65535 incl. range crossing 0xFFFF; wrong byte counts / lengths; all 256 function codes with random data; truncated headers); "
-                "observation = response bytes + whole register file; distinct = distinct case line; every case non-trivial",
+                "observation = response bytes + whole register file; distinct = distinct case line; every case non-trivial; register maps are built with overlapping AddReg(start, count) runs over registers partly present",
         "trusted": ["sync.RWMutex in Regs (single-threaded here)"],
         "modelled": ["modbus/pdu.go ProcessRequest and modbus/reg.go Regs modelled by hand (Siot/Model/Modbus.lean); Go slices/ints as lists/naturals with the fixed-width steps written out",
                      "the specification Siot/Spec/ModbusSpec.lean is my transcription of MODBUS Application Protocol V1.1b3 section 6; for multiple writes it reuses the model's write loop for the success state"],
@@ -106,7 +106,7 @@ PROPS = {
         "rule": "real modbus.Client <-> modbus.Server over net.Pipe, RTU and TCP framing, fresh link per case: coil/discrete reads (counts 1,2,7,8,9,12,15,16,17,24,100,2000,2001,0), "
                 "register reads (counts 1..126 incl. 97-100,124-126), single coil/register writes with read-back of the whole register file, on the C18 register maps; "
                 "raw frames (valid, bit-flipped, truncated, random) into both Decode functions; conversions uint32/int32/float32 both word orders and int16 on boundary patterns; "
-                "distinct = distinct case line; every case runs the real client, server or codec; one case in 25 is a sequence of 2-6 reads over ONE link (on TCP the transaction id goes up with every request; the model is evaluated with the same ids)",
+                "distinct = distinct case line; every case runs the real client, server or codec; one case in 25 is a sequence of 2-6 reads over ONE link (on TCP the transaction id goes up with every request; the model is evaluated with the same ids); fq cases: an answer decoded on the CLIENT side of a TCP link after k encoded requests, with a transaction id at, next to or far from k (accepted exactly when the id is k)",
         "trusted": ["net.Pipe as lossless in-memory duplex; math.Float32bits/frombits are bijections on non-NaN patterns"],
         "modelled": ["modbus/client.go, rtu.go, crc.go, tcp.go, RespReadBitsCount/RespReadRegs, data.go modelled by hand (Siot/Model/ModbusE2E.lean) on top of the C18 server model",
                      "timing (respreader, socket deadlines) is not modelled: a request the server does not answer is the outcome `timeout`",
@@ -123,7 +123,7 @@ PROPS = {
                 "dp/dn/dq/dN/dQ/ds: every decoder on valid encodings, on encodings mutated like a hostile peer would (truncation, bit flips, inserted bytes, unknown fields of all wire types, "
                 "groups incl. nested/unterminated/mismatched, known field numbers with other wire types, over-long and overflowing varints, field number 0 / > 2^29-1, reserved wire types, duplication) "
                 "and on random bytes; replies without node; hr: high-rate payloads of every length class; sj: the four subject parsers on short/odd subjects; "
-                "distinct = distinct case line; every case runs a real codec function",
+                "distinct = distinct case line; every case runs a real codec function; one input point in seven carries Go's zero time (0001-01-01), written exactly in the case line",
         "trusted": ["google.golang.org/protobuf v1.27.1 Unmarshal/Marshal (modelled at the byte level in Siot/Model/Proto3.lean; equality exercised on every case)",
                     "golang/protobuf ptypes.Timestamp validation (range constants transcribed)", "float32->float64 widening (IEEE, parameter `widen`)"],
         "modelled": ["data/point.go ToPb, PbToPoint, SerialToPoint, PbDecodePoints, PbDecodeSerialPoints, DecodeSerialHrPayload; data/node.go ToPbNode, PbToNode, PbDecode*; client/msg.go subject parsers",
@@ -156,7 +156,7 @@ PROPS = {
         "thorough_seeds": 3,
         "rule": "the same run-time types and prior values (nil, empty, shorter, longer) with 0-5 hostile points per list: keys '', '0','-1','+3','007','1e3','99999999999999999999','1000','1001',' 1','abc', "
                 "struct/map keys; values 0,1,-1,0.5,2^8,2^16,1e19,1e20,2^63,2^64,+-Inf,NaN,5e-324; tombstones 0,1,2,3,-1,-2,2^31; declared and undeclared types, point and edge lists; "
-                "Decode and MergePoints under recover; distinct = distinct case line",
+                "Decode and MergePoints under recover; distinct = distinct case line; mre cases call data.MergeEdgePoints with the id and parent of the value, a foreign id, a foreign parent, no parent and an empty id; one type descriptor in three declares its id and parent fields with a named string type",
         "trusted": ["reflect (deep embedding)", "Go's float->int conversion of NaN/out-of-range values (parameter; cannot panic in Go)"],
         "modelled": ["data/decode.go Decode/SetValue/setVal and data/merge.go MergePoints with every reflect Index/Set as a checked operation (outcome panic)",
                      "unexported tagged fields and maps with a named key type are outside the supported universe (reflect would panic on Set / SetMapIndex)"],
@@ -169,7 +169,7 @@ PROPS = {
         "rule": "2-11 points over collision alphabets (types '', a, ab, 0, tombstone, value, description; keys '', 0, b, 00, 1), distinct timestamps per identity incl. 1, -1, MaxInt64, "
                 "texts incl. NUL / non-UTF-8, values incl. +-0, +-Inf, subnormal, 2^53+1, tombstone counts incl. negative/huge, origins, data; exact re-deliveries; random permutation and "
                 "partition into batches; delivered to a node, the root node or an edge of a fresh SQLite store through the real nodePoints/edgePoints; "
-                "observation = raw table rows + hashes; oracle = last-write-wins per identity computed from the deliveries alone; distinct = distinct case line; every tenth case (those the wire carries unchanged: tombstone counts within int32, valid UTF-8 text) runs over the BUS on a fresh in-process instance instead: p.<id> / p.<id>.<parent> requests with acknowledgement, and the content read back through nodes.<parent>.<id> requests (client.GetNodes) with the reported hashes — the observation point the property names",
+                "observation = raw table rows + hashes; oracle = last-write-wins per identity computed from the deliveries alone; distinct = distinct case line; every tenth case (those the wire carries unchanged: tombstone counts within int32, valid UTF-8 text) runs over the BUS on a fresh in-process instance instead: p.<id> / p.<id>.<parent> requests with acknowledgement, and the content read back through nodes.<parent>.<id> requests (client.GetNodes) with the reported hashes — the observation point the property names; every store case ends with a store verification in repair mode, which must change no stored hash (judged under C03)",
         "trusted": ["modernc SQLite: row storage fidelity (TEXT/BLOB/INT/REAL), atomic commit, rollback (parameter; every case runs on a real database file)", "hash/crc32 IEEE table implementation (modelled bit-serially; equality exercised through the stored hashes of every case)"],
         "modelled": ["store/sqlite.go nodePoints, edgePoints, updateHash/updateHashHelper/updateHashEdge, isAncestor, normalizePoints and data.Points.Collapse, data.Point.CRC, data.NodeEdge.CalcHash modelled by hand (Siot/Model/Store.lean, Crc32.lean)", "time.Now() for zero timestamps is not modelled (generated points carry explicit non-zero times)", "the model's upstream walks use fuel 2^|edges|, proved never to be exhausted on reachable (acyclic) states; the Go recursion has no bound"],
         "assumptions": ["Admissible: two different delivered points of one identity never share a timestamp", "no NaN values (refused, C05)"],
@@ -180,7 +180,7 @@ PROPS = {
         "thorough_seeds": 3,
         "rule": "random DAG histories of 3-12 steps over 6 node ids: nodes created points-first or edge-first, node points anywhere, edge points incl. delete/undelete, "
                 "mirrors (may close diamonds; cycle attempts are refused), attaching above populated subtrees, two-point batches, stale timestamps; "
-                "observation = every edge row (up, down, type, hash) and all point rows; oracle = from-scratch Merkle recomputation over the implementation's rows; distinct = distinct case line; every tenth case (those the wire carries unchanged: tombstone counts within int32, valid UTF-8 text) runs over the BUS on a fresh in-process instance instead: p.<id> / p.<id>.<parent> requests with acknowledgement, and the content read back through nodes.<parent>.<id> requests (client.GetNodes) with the reported hashes — the observation point the property names",
+                "observation = every edge row (up, down, type, hash) and all point rows; oracle = from-scratch Merkle recomputation over the implementation's rows; distinct = distinct case line; every tenth case (those the wire carries unchanged: tombstone counts within int32, valid UTF-8 text) runs over the BUS on a fresh in-process instance instead: p.<id> / p.<id>.<parent> requests with acknowledgement, and the content read back through nodes.<parent>.<id> requests (client.GetNodes) with the reported hashes — the observation point the property names; every store case ends with a store verification in repair mode (hook VerifVerifyHashes) and reports whether any stored hash changed — it must not",
         "trusted": ["modernc SQLite: row storage fidelity (TEXT/BLOB/INT/REAL), atomic commit, rollback (parameter; every case runs on a real database file)", "hash/crc32 IEEE table implementation (modelled bit-serially; equality exercised through the stored hashes of every case)"],
         "modelled": ["store/sqlite.go nodePoints, edgePoints, updateHash/updateHashHelper/updateHashEdge, isAncestor, normalizePoints and data.Points.Collapse, data.Point.CRC, data.NodeEdge.CalcHash modelled by hand (Siot/Model/Store.lean, Crc32.lean)", "time.Now() for zero timestamps is not modelled (generated points carry explicit non-zero times)", "the model's upstream walks use fuel 2^|edges|, proved never to be exhausted on reachable (acyclic) states; the Go recursion has no bound"],
         "assumptions": ["XOR Merkle hashes: a change below an ancestor reached by an even number of paths cancels at that ancestor (a property of the documented definition, see DESIGN)"],
@@ -204,7 +204,7 @@ PROPS = {
         "rule": "one in-process instance (embedded NATS + store, root R); per case 2-7 edge writes over the bus building chains, mirrors, diamonds, detached nodes (parent none), "
                 "tombstoned and undeleted edges (tombstone 0..3), refused self edges; then ONE observed write (node points, edge points incl. delete/undelete, a new edge, or a refused NaN/self write) "
                 "whose up.> publications are collected between two sentinel writes; payload compared with the batch sent; oracle = subject set equals the fixpoint upward closure "
-                "(live edges for node points, all edges for edge points), nothing for a refused write; distinct = distinct case line",
+                "(live edges for node points, all edges for edge points), nothing for a refused write; distinct = distinct case line; one case in four uses node ids that differ in letter case only",
         "trusted": ["embedded nats-server: in-order delivery per publisher/subscriber, used to bracket the observed publications by sentinels", "modernc SQLite as in C05"],
         "modelled": ["store/store.go processPointsUpstream/processEdgePointsUpstream and store/sqlite.go up modelled by hand (Siot/Model/Rebroadcast.lean on top of the store model); their shape is re-extracted on every run (gen_rebroadcast_pinned)",
                      "math.Mod(tombstone, 2) == 0 is a parameter isEven of the theorems (IEEE remainder not modelled); the driver instantiates it with float arithmetic",
@@ -246,7 +246,7 @@ PROPS = {
                 "request's unique id, after flushing the API connection) or served. login cases: groups in chains/mirrors/detached, a user in 1-3 places, a second user, deletions and "
                 "undeletions of placements and of groups above, moves, then POST /v1/auth with right / wrong / padded credentials; observation = denied or token + the (id,parent) listing of "
                 "GET /v1/nodes with the issued token. bus cases: nats.Connect with right / wrong / truncated / padded / no token. Oracle = exact token or first two words Bearer + valid JWT; "
-                "login iff a matching user reaches root through non-deleted edges (fixpoint closure); every listed node at or below a live place of the user; distinct = distinct case line",
+                "login iff a matching user reaches root through non-deleted edges (fixpoint closure); every listed node at or below a live place of the user; distinct = distinct case line; the instance runs on a store file that already has its root node but whose signing key was cleared before the start",
         "trusted": ["github.com/golang-jwt/jwt v4: HS256 signature and exp/nbf validation (parameter tokenOK of the theorems; exercised with 17 token kinds per run)",
                     "net/http + net/textproto header transport (trimming of optional white space is reproduced in the driver)", "nats-server token authorization",
                     "modernc SQLite as in C05"],
@@ -268,7 +268,7 @@ PROPS = {
                 "plain edge points) on the client, children, grandchild, unrelated nodes and the other client, each batch from one origin out of: empty, the client itself, ext, u1, a child, the unrelated node, "
                 "the other client; non-decreasing time stamps (1 step in 8 repeats the previous stamp: ties between different points); a sentinel per client closes the log. 1 in 25 cases is a race case: one foreign write is sent while the client's constructor is running. "
                 "Observation = per client the ordered callback log + whether its folded configuration equals a fresh Decode of the store; oracle = foreign batches at/below present, own batches absent, "
-                "nothing from elsewhere, order of first appearances = order of writes, fold equal when nothing was self-authored; distinct = distinct case line",
+                "nothing from elsewhere, order of first appearances = order of writes, fold equal when nothing was self-authored; distinct = distinct case line; foreign writes to the map-typed field use the keys a, b, '' and '0' and one in three of them deletes the entry (tombstone 1)",
         "trusted": ["embedded nats-server / nats.go: per-subscription in-order delivery", "modernc SQLite as in C05",
                     "data.Decode / data.MergePoints on the harness' Vdev type: modelled at the level of points (last delivered point per identity); their field-level behaviour is C10/C11"],
         "modelled": ["the subscription callback inside client/manager.go scan (echo filter, life-cycle edge points, pass-through) modelled by hand (Siot/Model/Feed.lean) on top of the rebroadcast model of C06; shape re-extracted every run (gen_feed_pinned)",
@@ -304,7 +304,7 @@ PROPS = {
                 "1e15, 1e21, 1e-7, 5e-324, MaxFloat64, -0, +-Inf; node-id points referring to nodes inside, outside and to nothing; extra edge points; 1 case in 4 also draws from the 11 texts of the open "
                 "go-yaml finding. The top node or its first child is exported with client.ExportNodes and imported with client.ImportNodes under a fresh group on A or B — or, 1 case in 8, at 'root' of a fresh third instance — with new or preserved ids. "
                 "Observation = the imported subtree in pre-order (depth, id, type, parent, points, edge points; ids renamed by first appearance; times/origins not compared; tombstone-0 edge points = none). "
-                "Oracle = the exported tree of the source state, renamed, marker on the top description; distinct = distinct case line",
+                "Oracle = the exported tree of the source state, renamed, marker on the top description; distinct = distinct case line; one case in two with preserved ids on the same instance deletes every node below the exported one before the import ('|d': restore over a deleted copy)",
         "trusted": ["github.com/goccy/go-yaml v1.11.2 Marshal/Unmarshal of the export structure (parameter: the model hands the tree from export to import; every case goes through the real YAML text)",
                     "github.com/google/uuid: new ids are pairwise different and not blank (hypotheses hinj, hne of c15_replace_consistent)", "modernc SQLite as in C05", "embedded nats-server"],
         "modelled": ["client/node.go ExportNodes/exportNodesHelper, ImportNodes, checkIDs, ReplaceIDs, SendNode modelled by hand on the store model (Siot/Model/Export.lean); a tree is a pre-order list with depths; shape re-extracted every run (gen_export_pinned)",
@@ -366,7 +366,7 @@ PROPS = {
                 "Oracle on the history: every request answered without error; a read shows, per identity, a point that some write started before the read ended produced and that is at least as new as "
                 "every write acknowledged before the read was issued; reads of one reader never go back; the final rows are the newest acknowledged point per identity with consistent hashes; stop returned; "
                 "file re-opened. In addition the same load runs under the Go race detector (12 cases quick, 150 thorough): any DATA RACE report is a violation. distinct = distinct case line "
-                "(schedules are wall-clock dependent: each run explores new interleavings) One request in twelve of every writer is one the store must refuse (NaN, self edge, cycle): it must be answered with the refusal, not time out. Every fifth case stops the instance in the MIDDLE of the load (suffix x): Stop must return, the file must open again with consistent hashes, every write acknowledged before or during the shutdown must be there, and a write that was sent but not acknowledged may or may not be.",
+                "(schedules are wall-clock dependent: each run explores new interleavings) One request in twelve of every writer is one the store must refuse (NaN, self edge, cycle): it must be answered with the refusal, not time out. Every fifth case stops the instance in the MIDDLE of the load (suffix x): Stop must return, the file must open again with consistent hashes, every write acknowledged before or during the shutdown must be there, and a write that was sent but not acknowledged may or may not be.; one case in ten ('d' cases) opens the store directly and closes it while goroutines write node and edge points through the store's write functions: every write and Close must return and the file must open again; every case reports the store handlers left behind after the stop (stuck=0)",
         "trusted": ["Go scheduler, sync.Mutex, database/sql connection pool, modernc SQLite WAL snapshot isolation and locking, embedded nats-server: the run-time whose interleavings the model abstracts into a commit order",
                     "the Go race detector (sound for the executions it sees, not complete)"],
         "modelled": ["a concurrent run is modelled by its commit order and by the prefix each read saw (Siot/Model/Conc.lean); the theorems hold for every commit order",
